@@ -52,6 +52,11 @@ pub struct C10Case {
     /// async-std runtime threads of the zinoma process (0 = default).
     #[serde(default)]
     pub runtime_threads: u8,
+    /// Watch mode only: an extra requested aggregate reaches, through a chain of 30 aggregates, a
+    /// build whose input lies below a regular file (`plainfile.txt/sub`), which cannot be watched
+    /// (ENOTDIR). Whether zinoma gives up or carries on, it must do so cleanly.
+    #[serde(default)]
+    pub unwatchable: bool,
 }
 
 pub fn c10_case() -> impl Strategy<Value = C10Case> {
@@ -60,10 +65,10 @@ pub fn c10_case() -> impl Strategy<Value = C10Case> {
         prop::collection::vec(any::<u8>(), 1..=3),
         prop::collection::vec(any::<u8>(), 8),
         (any::<bool>(), 0u8..8, any::<u8>(), 0usize..5, 0u16..300, any::<bool>()),
-        (0u8..10, 100usize..700, 0u8..2, any::<bool>(), 0u8..3, 0u8..6, prop::sample::select(vec![0u8, 0, 0, 1, 1, 2, 4])),
+        (0u8..10, 100usize..700, 0u8..2, any::<bool>(), 0u8..3, 0u8..6, prop::sample::select(vec![0u8, 0, 0, 1, 1, 2, 4]), 0u8..4),
     )
         .prop_map(
-            |(raw, rootsel, longb, (watch, cause_b, failing_b, wait_for, delay_ms, double_signal), (large_b, large_size, large_shape, slow_check, non_exec_b, churn_b, runtime_threads))| {
+            |(raw, rootsel, longb, (watch, cause_b, failing_b, wait_for, delay_ms, double_signal), (large_b, large_size, large_shape, slow_check, non_exec_b, churn_b, runtime_threads, unwatchable_b))| {
                 let graph = build_graph(&raw);
                 let n = graph.n();
                 let roots = pick_roots(&graph, &rootsel);
@@ -92,6 +97,7 @@ pub fn c10_case() -> impl Strategy<Value = C10Case> {
                     non_exec: non_exec_b == 0 && large == 0,
                     churn: if watch && large == 0 && churn_b >= 3 { churn_b - 2 } else { 0 },
                     runtime_threads,
+                    unwatchable: watch && large == 0 && unwatchable_b == 0,
                 }
             },
         )
@@ -183,9 +189,29 @@ fn plan(c: &C10Case) -> Plan {
     }
 }
 
-fn write_c10_project(sb: &Sandbox, p: &Plan, slow_check: bool, non_exec: bool, churn: bool) -> std::path::PathBuf {
+fn write_c10_project(sb: &Sandbox, p: &Plan, slow_check: bool, non_exec: bool, churn: bool, unwatchable: bool) -> std::path::PathBuf {
     let g = &p.graph;
     let dir = write_c10_project_inner(sb, p, non_exec);
+    if unwatchable {
+        // an extra requested aggregate reaches, through a chain of aggregates, a build whose input
+        // lies below a regular file; the chain gives the other scripts time to come up first
+        let pdir = sb.path(&proj_rel(0));
+        let _ = std::fs::write(pdir.join("plainfile.txt"), b"a regular file\n");
+        let path = pdir.join("zinoma.yml");
+        if let Ok(text) = std::fs::read_to_string(&path) {
+            if let Ok(mut doc) = serde_json::from_str::<Value>(&text) {
+                if let Some(ts) = doc["targets"].as_object_mut() {
+                    const CHAIN: usize = 30;
+                    for k in 1..CHAIN {
+                        ts.insert(format!("zz_c{}", k), json!({"dependencies": [format!("zz_c{}", k + 1)]}));
+                    }
+                    ts.insert(format!("zz_c{}", CHAIN), json!({"dependencies": ["zz_unwatchable"]}));
+                    ts.insert("zz_unwatchable".into(), json!({"build": "echo built", "input": [{"paths": ["plainfile.txt/sub"]}]}));
+                }
+                let _ = std::fs::write(&path, serde_json::to_string_pretty(&doc).unwrap());
+            }
+        }
+    }
     if churn {
         // every build and service watches a file of its own project
         for pr in 0..g.nproj {
@@ -338,13 +364,16 @@ pub fn eval_c10(c: &C10Case) -> CaseResult {
     let p = plan(c);
     let g = &p.graph;
     let sb = Sandbox::new("c10");
-    let dir = write_c10_project(&sb, &p, c.slow_check, c.non_exec, c.churn > 0);
+    let dir = write_c10_project(&sb, &p, c.slow_check, c.non_exec, c.churn > 0, c.unwatchable);
     let mut args: Vec<String> = vec![];
     if c.watch {
         args.push("--watch".into());
     }
     for &r in &p.roots {
         args.push(cli_name(g, r, false));
+    }
+    if c.unwatchable {
+        args.push("zz_c1".into());
     }
     let clo = g.closure(&p.roots);
     // which long scripts / services can come up at all
@@ -379,6 +408,9 @@ pub fn eval_c10(c: &C10Case) -> CaseResult {
     }
     if c.runtime_threads > 0 {
         classes.push(format!("runtime-threads-{}", c.runtime_threads));
+    }
+    if c.unwatchable {
+        classes.push("unwatchable-input".to_string());
     }
     let sample = json!({
         "mode": mode, "cause": format!("{:?}", cause), "wait_for": wait_for, "delay_ms": c.delay_ms,
